@@ -213,6 +213,14 @@ def _make_labelled(case):
     """Build the labelled model of the case: optional `dead` keys are added and subtracted first (they leave
     bookkeeping traces but no term), then the terms are entered with +=, or through the constructor."""
     T = cls_of(case["type"])
+    if case.get("how") == "cleared":
+        # the object first held another model over other labels (in another order), was clear()ed, and was then
+        # filled with the terms: nothing of the earlier enumeration may survive
+        M = T({('zz', 'yy'): 1, ('yy',): 2, ('b',): 3, (0,): 1})
+        M.clear()
+        for k, v in case["terms"].items():
+            M[k] += v
+        return M
     if case.get("how", "ctor") == "ctor" and not case.get("dead"):
         return T(case["terms"])
     M = T()
@@ -310,9 +318,10 @@ def _gen_convert(ctx, stale=False):
             yield {"type": t, "terms": {(): 1}, "how": "ctor"}
             yield {"type": t, "terms": {(1,): 1, (0,): 2, (1, 0): -1}, "how": "ctor"}
             yield {"type": t, "terms": {('b',): 1, ('a',): -2}, "how": "ctor"}
+            yield {"type": t, "terms": {('b',): 1, ('a',): -2, ('a', 'b'): 3}, "how": "cleared"}
             for i in range(n):
                 yield {"type": t, "terms": _rand_terms(rng, pool_r if i % 3 == 0 else pool_c, COEFS, 4, min_terms=1),
-                       "how": "ctor" if i % 2 else "edits"}
+                       "how": "cleared" if i % 5 == 4 else ("ctor" if i % 2 else "edits")}
         else:
             # labels that were seen by the model but carry no term: zero-valued entry, squashed-away label
             yield {"type": t, "terms": {('a',): 0, ('b',): 1}, "how": "ctor", "why": "zero-value-label"}
